@@ -11,6 +11,7 @@ from vlib.runner import SubProp, Violation
 from mir_eval import multipitch
 
 PROPERTY_ID = "C18"
+SCALE = (3, 8)   # budget multiplier (quick, thorough) applied to the n=(...) of every generated sub-property
 LEVEL = "exploration"
 RULE = ("ragged (time, frequency-list) pairs: 0-8 frames of 0-4 pitches on an exact MIDI lattice (integer semitones + offsets chosen so that "
         "no distance, also modulo 12, equals a tolerance), estimates derived from the reference (kept / detuned / octave-shifted / dropped / "
